@@ -21,6 +21,10 @@ CONSTANTS Family, Bound
 \* campaign R: logical requests proposed by the harness's seeded generator (no expectations, no canonical
 \* forms); TLC signs them with the reference signer and applies the proposed tampering
 Logical == ndJsonDeserialize(IOEnv.LOGICAL)
+\* wire requests read from files (the AWS SigV4 test-suite copies in the repository): they carry a literal
+\* signature computed by AWS; the specification reads them, derives what should have been signed, and the
+\* verdict follows from comparing the presented signature with the oracle's - nothing is signed here
+Wires == ndJsonDeserialize(IOEnv.WIRES)
 VARIABLE idx
 
 Bool(k) == k = 2
@@ -601,6 +605,7 @@ Dim(k) ==
       [] Family = "ioerr"    -> V(<<4, 2, 2>>, k)
       [] Family = "adapter"  -> V(<<2, 3, 4, 4>>, k)
       [] Family = "logical"  -> V(<<Len(Logical)>>, k)
+      [] Family = "suite"    -> V(<<Len(Wires), 2, 2>>, k)
       \* request, key, position, variant (1 plain lower-case guess, 2 upper-case guess, 3 logger enabled at Trace level)
       [] Family = "ct"       -> V(<<IF Bound = 0 THEN 1 ELSE 3, IF Bound = 0 THEN 1 ELSE 2, Len(CtPositions), 3>>, k)
       [] Family = "charsets" -> V(<<Len(CharsetLabels), IF Bound = 0 THEN 3 ELSE Len(CharsetBodies), 2>>, k)
@@ -793,6 +798,13 @@ BundleOf ==
                           [] g.mut = "spell" -> SpellRecipe(w, (g.pos % NumSpell) + 1)
                           [] g.mut = "method" -> << [k |-> "method", v |-> B("PATCH")] >>
             IN [b2 EXCEPT !.post = post]
+      [] Family = "suite" ->
+            LET g  == Wires[idx[1]]
+                hs == [i \in 1..Len(g.headers) |-> <<g.headers[i][1], g.headers[i][2]>>]
+            IN [Bundle0("hdr") EXCEPT !.post = << [k |-> "method", v |-> g.method], [k |-> "uri", v |-> g.uri],
+                                                  [k |-> "hdrs", v |-> hs], [k |-> "body", v |-> g.body] >>,
+                                      !.over = [sent |-> TRUE], !.cfg.fold = Bool(idx[2]),
+                                      !.cfg.provider = IF idx[3] = 1 THEN "fn" ELSE "scripted"]
       [] Family = "ct" ->
             LET b0 == CASE idx[1] = 1 -> Bundle0("hdr") [] idx[1] = 2 -> RichB("hdr")
                         [] idx[1] = 3 -> [Bundle0("hdr") EXCEPT !.L.path = B("/a/b"), !.L.query = B("x=1&y=2")]
